@@ -1393,13 +1393,15 @@ func (c *Conn) readLine() (string, error) {
 		}
 	}
 
-	c.lineLimitReader.takeReadErr()
 	line, err := c.text.ReadLine()
-	if rerr := c.lineLimitReader.takeReadErr(); err == nil && rerr != nil {
-		// The connection ended or timed out before the line did: the
-		// buffered reader hands out the part it has got and drops the error.
-		// What was received is not a command.
-		return "", rerr
+	if err == nil && c.text.R.Buffered() == 0 {
+		if rerr := c.lineLimitReader.cutShort(); rerr != nil {
+			// The connection ended or timed out before the line did: the
+			// buffered reader hands out the part it has got and drops the
+			// error. What was received is not a command. (A complete line
+			// that arrived together with the error is one.)
+			return "", rerr
+		}
 	}
 	if err == nil && c.lineLimitReader.exceeded() {
 		// The buffered reader hands out the part of the line it had already
